@@ -92,6 +92,9 @@ pub struct Sim {
     /// monitor-only: every node's Storage::snapshot is the application's real snapshot (never
     /// MemStorage::snapshot, which fabricates an index it does not have)
     pub force_sim_snap: bool,
+    /// monitor-only: the application never calls campaign() on a node that is not a voter of
+    /// its own configuration
+    pub voter_campaign_only: bool,
 }
 
 fn logger() -> slog::Logger {
@@ -126,7 +129,7 @@ pub fn call_kind(c: &Call) -> &'static str {
 
 impl Sim {
     pub fn new(seed: u64, rec: Recorder) -> Sim {
-        Sim { nodes: vec![], net: vec![], rng: Rng::new(seed), rec, next_payload: 1, max_log: 12, trace: vec![], keep_trace: false, trace_tail: 60, run_id: seed, trace_len: 0, mon: None, halted: false, quiet: false, extra_steps: false, force_prevote_cq: false, force_sim_snap: false }
+        Sim { nodes: vec![], net: vec![], rng: Rng::new(seed), rec, next_payload: 1, max_log: 12, trace: vec![], keep_trace: false, trace_tail: 60, run_id: seed, trace_len: 0, mon: None, halted: false, quiet: false, extra_steps: false, force_prevote_cq: false, force_sim_snap: false, voter_campaign_only: false }
     }
 
     /// Random cluster shape and per-node configuration.
@@ -575,7 +578,10 @@ impl Sim {
                 self.call(i, Call::TransferLeader(to));
             }
             900..=909 => {
-                self.call(i, Call::Campaign);
+                let skip = self.voter_campaign_only && self.nodes[i].driver.as_ref().map_or(false, |d| !d.node.raft.promotable());
+                if !skip {
+                    self.call(i, Call::Campaign);
+                }
             }
             910..=929 => self.compact(i),
             930..=939 => {
